@@ -216,7 +216,13 @@ func (e *c04Exec) subRun(z zoneCfg) (out []string, sdig string, infra string) {
 		compileOptCache = nil
 		if c.Knobs.ReuseOpts {
 			compileOptCache = map[string]fhirpath.CompileOption{}
-			in.evalOptCache = map[string]fhirpath.EvaluateOption{}
+			var lists [][]EOpt
+			for ci := range c.Clients {
+				for oi := range c.Clients[ci] {
+					lists = append(lists, c.Clients[ci][oi].Opts)
+				}
+			}
+			in.prepareEvalOpts(lists...)
 			v.Stats.probe("option-values-reused")
 		}
 		defer func() { compileOptCache = nil }()
